@@ -261,6 +261,17 @@ func (s *SessionState) onLCPDown() {
 		"session_id", s.SessionID,
 		"pppoe_session_id", s.PPPoESessionID)
 
+	// Leaving LCP Opened ends this link's authentication (RFC 1661 section 3.4,
+	// 3.5): an AAA answer to a request made before the renegotiation must not
+	// authorise the new link, and the NCPs go Down with the layer below them so
+	// they neither retransmit nor keep negotiating until authentication has
+	// succeeded again.
+	s.stopCHAPRetryTimer()
+	s.pendingAuthRequestID = ""
+	s.pendingAuthType = ""
+	s.ipcp.FSM().Down()
+	s.ipv6cp.FSM().Down()
+
 	s.Phase = ppp.PhaseEstablish
 }
 
